@@ -199,7 +199,7 @@ def main(tier, seed, replay=None):
             for sig, detail in viols:
                 rep.violation(sig, detail, case, size=len(case["poly"]))
     # persistence
-    fres = tlc.run("PolyFileSpec", FCFG.format(m=2 if q else 3), workers=4,
+    fres = tlc.run("PolyFileSpec", FCFG.format(m=2), workers=4,
                    timeout=3000)
     ev.add_tlc("PolyFileSpec filter sets", fres)
     seen, fcases = set(), []
